@@ -259,7 +259,7 @@ def oracle(steps):
             undefined_weights = (opname in ('scale', 'scaled') and src is not None and src['sys'] == 'c' and src['kind'] == 'sep'
                                  and src['w'] is None and any(len(a) < 2 for a in src['data']))
             if not undefined_weights:
-                bad.append(('op-raises %s %s' % (opname, status[4:]), '%s raised %s on a %s %s grid' % (
+                bad.append(('op-raises %s' % opname, '%s raised %s on a %s %s grid' % (
                     opname, status[4:], src['sys'] if src else '-', src['kind'] if src else '-')))
             # state must be unchanged by the failed operation
             if [G.ident(s) for s in before] != ids[:len(before)] or len(ids) != len(before):
@@ -269,7 +269,7 @@ def oracle(steps):
         for k in range(n):
             if obs['hash'][k][0] != 'ok':
                 rev = ''
-                bad.append(('hash-raises %s' % snaps[k]['kind'], 'hash(grid) raised %s for a %s %s grid (after %s)' % (
+                bad.append(('hash-raises', 'hash(grid) raised %s for a %s %s grid (after %s)' % (
                     obs['hash'][k][1], snaps[k]['sys'], snaps[k]['kind'], opname)))
         for i in range(n):
             for j in range(n):
@@ -277,10 +277,10 @@ def oracle(steps):
                 got = obs['eq'][i][j]
                 if got is not want:
                     if i == j:
-                        key = 'eq-refl %s' % snaps[i]['kind']
+                        key = 'eq-refl'
                         what = 'a %s grid with axis lengths %s is not equal to itself' % (snaps[i]['kind'], lens(snaps[i]))
                     elif want:
-                        key = 'eq-identical %s' % snaps[i]['kind']
+                        key = 'eq-identical'
                         what = 'two %s grids with identical coordinates and system compare unequal (%s)' % (snaps[i]['kind'], got)
                     else:
                         key = 'eq-differ'
@@ -311,7 +311,7 @@ def oracle(steps):
                     opname, op[1] if opname != 'new' else '-', snaps[k]['sys'], snaps[k]['kind'])))
         if opname in ('rt', 'rebuild'):
             if obs['eq'][op[1]][n - 1] is not True or obs['eq'][n - 1][op[1]] is not True:
-                bad.append(('roundtrip-%s %s' % (op[2] if opname == 'rt' else 'rebuild', snaps[n - 1]['kind']),
+                bad.append(('eq-identical',
                             'a %s of a %s grid is not equal to the original' % (op[2] if opname == 'rt' else 'rebuilt twin', snaps[n - 1]['kind'])))
             if opname == 'rt' and snaps[n - 1]['w'] != snaps[op[1]]['w']:
                 bad.append(('roundtrip-weights', 'a %s round trip changed the stored weights' % op[2]))
@@ -444,7 +444,7 @@ def run(ctx):
                         'float arithmetic on the generated dyadic values is exact (checked per case; inexact cases skip the exact hash tie)',
                         'scale on a Cartesian separated grid with an axis of fewer than two points and no stored weights raises IndexError '
                         '(automatic weights undefined) and is treated as outside the quantifier']
-    n = ctx.scale(350, 5000)
+    n = ctx.scale(2500, 20000)
     cases = [(c, 'directed') for c in DIRECTED]
     for k in range(n):
         cases.append((gen_case(ctx.rng, big=(ctx.tier == 'thorough' and k % 4 == 0)), 'random'))
@@ -485,7 +485,7 @@ def run(ctx):
             stop = False
             for k in range(m['n']):
                 ms = G.parse_show(out[base + m['show'] + k])
-                d = G.compare_show(ms, obs['snaps'][k], None)
+                d = G.compare_show(ms, obs['snaps'][k], None, weights=False)    # weights are C11's business
                 if d is not None:
                     ctx.disagree('C10 show', {'case': case, 'after': op, 'grid': k, 'diff': d})
                     stop = True
